@@ -218,6 +218,7 @@ class Gen:
     def __init__(self, rng):
         self.rng = rng
         self.n = 0
+        self.lid = 0
         self.globals = []            # (name, type)
         self.arrays = []             # (name, elemtype, size)
         self.structs = []            # (tag, [(field, type)])
@@ -232,6 +233,12 @@ class Gen:
     def fresh(self, p):
         self.n += 1
         return f"{p}{self.n}"
+
+    def local(self, p):
+        """names of function scope / block scope: the counter restarts in every function, so that parameters,
+        locals, static locals and loop variables of different functions deliberately SHARE their names"""
+        self.lid += 1
+        return f"{p}{self.lid}"
 
     def const(self, ty=None):
         rng = self.rng
@@ -447,7 +454,7 @@ class Gen:
         if r < 0.62:
             return f"do {self.block(depth - 1, env, True, ret)} while ({self.rexpr(1, env)});"
         if r < 0.72:
-            i = self.fresh("i")
+            i = self.local("i")
             return (f"for (int {i} = 0; {i} < {rng.randint(1, 9)}; {i}++) "
                     + self.block(depth - 1, env + [(i, "int")], True, ret))
         if r < 0.84:
@@ -469,14 +476,21 @@ class Gen:
         rng = self.rng
         env = list(env)
         parts = []
+        if rng.random() < 0.2:       # block-scope struct tag and enumeration constants: the same names in every function
+            parts.append("struct LT { int a; char b; } lt = { 1, 2 }; enum { LA = 5, LB }; lt.a = LB + lt.b;")
+        if self.globals and rng.random() < 0.15:      # a local that shadows a global
+            g, ty = rng.choice(self.globals)
+            if g not in [n for n, _ in env]:
+                parts.append(f"{ty} {g} = {self.rexpr(1, env)};")
+                env.append((g, ty))
         for _ in range(rng.randint(0, 2)):
             ty = rng.choice(ITYPES)
-            nm = self.fresh("v")
+            nm = self.local("v")
             init = f" = {self.rexpr(1, env)}" if rng.random() < 0.7 else ""
             parts.append(f"{ty} {nm}{init};")
             env.append((nm, ty))
         if rng.random() < 0.25:      # objects with static storage duration inside a function
-            nm = self.fresh("sl")
+            nm = self.local("sl")
             if self.enum_tags and rng.random() < 0.6:
                 tag, names = rng.choice(self.enum_tags)
                 parts.append(f"static enum {tag} {nm} = {rng.choice(names)[0]};")
@@ -489,23 +503,33 @@ class Gen:
 
     def function(self):
         rng = self.rng
+        self.lid = 0                                   # names restart: shared with the other functions of the unit
         ret = rng.choice(ITYPES + ["void"])
-        params = [(self.fresh("x"), rng.choice(ITYPES)) for _ in range(rng.randint(0, 4))]
+        params = [(self.local("x"), rng.choice(ITYPES)) for _ in range(rng.randint(0, 4))]
         name = self.fresh("fn")
         body = self.block(rng.randint(1, 3), params, False, ret)
-        tail = f" return {self.rexpr(1, params)};" if ret != "void" else ""
-        text = (f"{rng.choice(['', 'static '])}{ret} {name}(" + (", ".join(f"{t} {n}" for n, t in params) or "void") + ") "
-                + body[:-1] + tail + " }")
+        tail = f" return {self.rexpr(1, params)};" if ret != "void" else " return;"
+        # goto / labels: function scope, the SAME label names (`again`, `done`) in every function of the unit
+        pre = post = ""
+        k = rng.random()
+        if k < 0.6:
+            post = " done:"
+            pre += f" if ({self.rexpr(1, params)}) goto done;"
+        if k < 0.3 or k > 0.85:
+            pre = f" int gi = 0; again: gi++; if (gi < {rng.randint(2, 4)}) goto again;" + pre
+        text = (f"{rng.choice(['', 'static '])}{ret} {name}(" + (", ".join(f"{t} {n}" for n, t in params) or "void") + ") {"
+                + pre + " " + body + post + tail + " }")
         self.funcs.append((name, ret, params))
         return text
 
 
+ITYPES_UNUSED = None
 
 
 def gen_unit(rng):
     g = Gen(rng)
     parts = g.global_decls(rng.randint(3, 9))
-    for _ in range(rng.randint(1, 3)):
+    for _ in range(rng.randint(2, 4)):
         parts.append(g.function())
     return "\n".join(parts) + "\n", g
 
@@ -533,6 +557,9 @@ CORPUS_B = [
     "typedef unsigned long T; T g = 5; T h(T a, unsigned char b) { return a * b + (T)-1 / 3; }\n",
     "int g; int *p = &g; int f(void) { int *q = &g; *q = 3; return *p + sizeof(g) + sizeof(int); }\n",
     ENUM_UNIT,
+    "int f(int x) { if (x) goto done; x = x + 1; done: return x; }\nint g(int x) { int r = 0; again: r++; if (r < x) goto again; if (r > 5) goto done; r = 7; done: return r; }\n",
+    "int v; int f(int v1) { static int s = 1; int v = v1; struct T { int a; } t = { 3 }; enum { K = 2 }; return v + s + t.a + K; }\n"
+    "long g(long v1) { static long s = -1; struct T { char c; long l; } t = { 1, 2 }; enum { K = 9 }; return v1 + s + t.l + K + v; }\n",
     # syntactically valid, violates a constraint: must be a diagnostic (open finding c:TypeError:ir.setter)
     "void f(void) {}\nvoid g(void) { long long v = f(); }\n",
 ]
